@@ -13,7 +13,7 @@ try:
     if r.returncode != 0:
         print("does not compile:", r.stderr[:500]); sys.exit(2)
     for p in props:
-        r = subprocess.run(["/verif/check", p], env=dict(os.environ, VERIF_REPO=d + "/repo"), capture_output=True, text=True)
+        r = subprocess.run(["/verif/check", p], env=dict(os.environ, VERIF_REPO=d + "/repo", VERIF_EVIDENCE_DIR=d + "/evidence"), capture_output=True, text=True)
         lines = [l for l in r.stdout.splitlines() if not l.startswith("UNDECIDED")]
         print(f"== {p}: exit {r.returncode}")
         print("\n".join(lines[-6:])[:1500])
